@@ -65,6 +65,8 @@ type BytesPlan struct {
 	CL           string `json:"cl,omitempty"` // "": len(Body); "none": no header; otherwise literal
 	ReadErrAfter int    `json:"read_err_after,omitempty"`
 	Stream       int64  `json:"stream,omitempty"` // > 0: that many zero octets without content-length instead of Body
+	Status       int    `json:"status,omitempty"` // HTTP status (0: 200)
+	Stall        bool   `json:"stall,omitempty"`  // headers, then a body that never comes
 	QType        uint16 `json:"qtype,omitempty"`  // queries that get the body (0: all)
 	Host         string `json:"host"`
 	CacheOff     bool   `json:"cache_off"`
@@ -613,6 +615,8 @@ type bodyCase struct {
 	readErr int
 	skip    bool
 	stream  int64 // > 0: an unbounded-looking body without content-length
+	status  int   // HTTP status, 0 = 200
+	stall   bool  // the body never comes
 }
 
 type resolveVerdict struct {
@@ -637,7 +641,11 @@ func resolveBodies(t *testing.T, zone *simdoh.Zone, host string, qtype uint16, c
 			if e.QName == "" || (qtype != 0 && e.QType != qtype) {
 				return nil
 			}
-			return &simdoh.Reply{Status: 200, Body: c.body, CL: c.cl, ReadErrAfter: c.readErr, Stream: c.stream}
+			st := 200
+			if c.status != 0 {
+				st = c.status
+			}
+			return &simdoh.Reply{Status: st, Body: c.body, CL: c.cl, ReadErrAfter: c.readErr, Stream: c.stream, Stall: c.stall}
 		}
 		for i := 0; i < n; i++ {
 			c = get(i)
@@ -734,7 +742,7 @@ func newMutator(base []byte, lay *simdoh.Layout, fam string, masks []byte) *muta
 		sort.Ints(m.sub)
 		m.n = len(m.sub) * (len(lenDeltas) + 3)
 	case "http":
-		m.n = len(httpCLs) + 5
+		m.n = len(httpCLs) + 9
 	}
 	return m
 }
@@ -849,6 +857,14 @@ func (m *mutator) get(i int, buf []byte) (c bodyCase, desc string) {
 			case 3:
 				c.stream = 24 << 20
 				desc = "24 MiB body without content-length"
+			case 5, 6, 7:
+				// a refusal that is not retried, with a bulky page behind it
+				c.status = []int{403, 404, 400}[i-len(httpCLs)-5]
+				c.stream = 24 << 20
+				desc = fmt.Sprintf("status %d with a 24 MiB body without content-length", c.status)
+			case 8:
+				c.status, c.stall = 403, true
+				desc = "status 403, then a body that never comes"
 			default:
 				b = append(b, b...)
 				desc = "body sent twice"
@@ -1000,7 +1016,7 @@ func executeMutate(t *testing.T, prop string, pl *Plan) *core.Result {
 		counts["resolve_"+v.status]++
 		if v.status != "ok" && v.status != "err" {
 			c, _ := mu.get(i, buf)
-			hint := &BytesPlan{Body: append([]byte(nil), c.body...), CL: clText(c.cl), ReadErrAfter: c.readErr, Stream: c.stream, Host: p.Host, QType: p.QType, CacheOff: p.CacheOff, Note: last}
+			hint := &BytesPlan{Body: append([]byte(nil), c.body...), CL: clText(c.cl), ReadErrAfter: c.readErr, Stream: c.stream, Status: c.status, Stall: c.stall, Host: p.Host, QType: p.QType, CacheOff: p.CacheOff, Note: last}
 			tally.fail(v.status, v.site, hint, "Resolve(%q) with %s: %s", p.Host, last, v.detail)
 		}
 		if status[i] == 'o' && v.status == "ok" {
@@ -1202,7 +1218,7 @@ func executeBytes(t *testing.T, prop string, pl *Plan) *core.Result {
 		}
 		zone := &simdoh.Zone{RRs: []simdoh.RR{{Name: host, Type: simdoh.TypeA, TTL: 60, IP: "10.1.1.1"}}}
 		harness, simNs := resolveBodies(t, zone, host, p.QType, p.CacheOff, 1, func(int) bodyCase {
-			c := bodyCase{body: p.Body, readErr: p.ReadErrAfter, stream: p.Stream}
+			c := bodyCase{body: p.Body, readErr: p.ReadErrAfter, stream: p.Stream, status: p.Status, stall: p.Stall}
 			switch p.CL {
 			case "":
 			case "none":
